@@ -50,15 +50,17 @@ def _product(tree, ref, alphabet, agg, case_base, mk=None):
             acc = dfa.is_accepting(st)
             if acc != R.nullable(r):
                 out.append(("dfa-accepting-mismatch", {"api": "dfa", "got_accepting": acc}, path))
-            # determinism of the constructed automaton (disjoint atoms => distinct labels)
-            labels = [str(tr[0]) for tr in st.transition]
-            if len(labels) != len(set(labels)):
-                out.append(("dfa-duplicate-label", {"api": "dfa"}, path))
+            # determinism of the constructed automaton: no alphabet item is accepted by two transitions of one state
+            for a in alphabet:
+                item = real.real_seq(a)[0]
+                if sum(1 for tr in st.transition if tr[0].accept(item)) > 1:
+                    out.append(("dfa-duplicate-label", {"api": "dfa"}, path))
+                    break
             for a in alphabet:
                 p = Pattern(0, dfa)
                 p.state = st
                 try:
-                    res = p.consume(real.ATOMS.get(a, a))
+                    res = p.consume(real.real_seq(a)[0])
                 except ValueError as e:
                     out.append(("dfa-ambiguous", {"api": "dfa", "error": str(e)}, path + a))
                     continue
@@ -163,6 +165,37 @@ def shared_trees(body_size):
 WORD_ATOMS = {"a": "async", "b": ("tuple", 1), "c": "x"}  # a multi-character word, a tuple, a single character
 
 
+def atom_kinds():
+    """name -> (pattern atoms, sequence items): alphabets whose items are opaque to the engine in different ways"""
+    from codelimit.common.gsm.predicate.Predicate import Predicate
+
+    class OneOf(Predicate):
+        """a client-defined predicate (the engine's Identity is only the default for plain items)"""
+
+        def __init__(self, *items):
+            self.items = frozenset(items)
+
+        def accept(self, item):
+            return item in self.items
+
+        def __eq__(self, other):
+            return isinstance(other, OneOf) and other.items == self.items
+
+        def __hash__(self):
+            return hash(self.items)
+
+        def __str__(self):
+            return "OneOf"  # all instances print alike: labels are for display, not identity
+
+    return {
+        "words": (WORD_ATOMS, {}),
+        # distinct, disjoint atoms whose printed form is identical
+        "samelabel": ({"a": 1, "b": "1", "c": "x"}, {}),
+        # atoms that are predicate objects; the sequence holds plain items
+        "predicates": ({"a": OneOf("a", "A"), "b": OneOf("b"), "c": "c"}, {"a": "A", "b": "b", "c": "c"}),
+    }
+
+
 def _block(block, agg):
     if block[0] == "pairs":
         return _block_pairs(block, agg)
@@ -173,18 +206,22 @@ def _block(block, agg):
             for kind, sig, seq, detail in eval_tree(tree, seqs, seq_alpha, agg, shared=True):
                 agg.violation(kind, dict(sig, operands="shared"), {"pattern": R.to_json(tree), "seq": seq, "alphabet": seq_alpha, "shared": True}, detail)
         return
-    if block[0] == "words":
+    if block[0] in ("words", "samelabel", "predicates"):
+        pat_atoms, seq_items = atom_kinds()[block[0]]
         real.ATOMS.clear()
-        real.ATOMS.update(WORD_ATOMS)
+        real.SEQ.clear()
+        real.ATOMS.update(pat_atoms)
+        real.SEQ.update(seq_items)
         try:
             inner = tuple(block[1:])
             atoms, size, lo, hi, seq_alpha, seq_len = inner
             seqs = R.sequences(seq_alpha, seq_len)
             for idx, tree in enumerate(R.trees(size, atoms)[lo:hi]):
                 for kind, sig, seq, detail in eval_tree(tree, seqs, seq_alpha, agg):
-                    agg.violation(kind, dict(sig, atoms="words"), {"pattern": R.to_json(tree), "seq": seq, "alphabet": seq_alpha, "atoms": "words"}, detail)
+                    agg.violation(kind, dict(sig, atoms=block[0]), {"pattern": R.to_json(tree), "seq": seq, "alphabet": seq_alpha, "atoms": block[0]}, detail)
         finally:
             real.ATOMS.clear()
+            real.SEQ.clear()
         return
     atoms, size, lo, hi, seq_alpha, seq_len = block
     seqs = R.sequences(seq_alpha, seq_len)
@@ -278,8 +315,10 @@ def replay(case):
 
 def _replay_isolated(case):
     agg = core.Agg()
-    if case.get("atoms") == "words":
-        real.ATOMS.update(WORD_ATOMS)
+    if case.get("atoms"):
+        pat_atoms, seq_items = atom_kinds()[case["atoms"]]
+        real.ATOMS.update(pat_atoms)
+        real.SEQ.update(seq_items)
     tree = R.from_json(case["pattern"])
     alpha = case.get("alphabet", "abc")
     seqs = [case["seq"]] if case.get("seq") is not None else [""]
@@ -323,7 +362,8 @@ def run(ctx: core.Ctx):
         n = len(R.trees(size, "abc"))
         step = max(1, n // ctx.workers + 1)
         for lo in range(0, n, step):
-            blocks.append(("words", "abc", size, lo, min(n, lo + step), "abc", 4))
+            for kind in ("words", "samelabel", "predicates"):
+                blocks.append((kind, "abc", size, lo, min(n, lo + step), "abc", 4 if kind == "words" else 3))
     # one operand object used twice in a pattern, the expression object reused for every call
     body_size = ctx.pick(3, 4)
     nsh = len(shared_trees(body_size))
@@ -332,6 +372,7 @@ def run(ctx: core.Ctx):
     for lo in range(0, nsh, step):
         blocks.append(("shared", body_size, lo, min(nsh, lo + step), "abc", ctx.pick(3, 4)))
     ctx.bounds["word_atoms"] = {k: repr(v) for k, v in WORD_ATOMS.items()}
+    ctx.bounds["other_atom_kinds"] = {"samelabel": "1, '1', 'x' (two atoms print alike)", "predicates": "client-defined Predicate objects OneOf{a,A}, OneOf{b} and a plain item"}
     pair_size = 4  # 160 trees -> 25 440 ordered pairs (size 5 would be 655 000 forked children)
     npair = len(pair_trees(pair_size))
     ctx.bounds["pattern_pairs"] = {"max_size": pair_size, "trees": npair, "ordered_pairs": npair * (npair - 1), "sequences": "all over ab up to length 3"}
